@@ -628,6 +628,29 @@ pub open spec fn rf_dsum(q: Seq<T>, filt: real, slope: real, i: int) -> real dec
 }
 pub open spec fn flex_evict(q: Seq<T>, n: nat) -> Seq<T> { if q.len() >= n && q.len() > 0 { q.drop_first() } else { q } }
 
+// ---------- Fisher transform step and its bound |fish| <= ln 199 ----------
+pub open spec fn eft_fish(sm: real, prev: real) -> real {
+    (5real / 10real) * r_ln(rdiv(1real + sm, 1real - sm)) + (5real / 10real) * prev
+}
+pub open spec fn ln199() -> real { r_ln(199real) }
+pub proof fn lemma_rdiv_ge_k(a: real, b: real, k: real)
+    requires b > 0real, a >= k * b
+    ensures rdiv(a, b) >= k
+{
+    lemma_rdiv_mul(a, b);
+    assert(rdiv(a, b) >= k) by(nonlinear_arith) requires rdiv(a, b) * b == a, a >= k * b, b > 0real;
+}
+pub proof fn lemma_fisher_bound(sm: real, prev: real)
+    requires -(99real / 100real) <= sm <= 99real / 100real, -ln199() <= prev <= ln199()
+    ensures -ln199() <= eft_fish(sm, prev) <= ln199()
+{
+    let x = rdiv(1real + sm, 1real - sm);
+    lemma_rdiv_le_k(1real + sm, 1real - sm, 199real);
+    lemma_rdiv_ge_k(1real + sm, 1real - sm, 1real / 199real);
+    ax_ln_mono(x, 199real); ax_ln_mono(1real / 199real, x); ax_ln_inv(199real);
+}
+pub open spec fn all_within(s: Seq<T>, b: real) -> bool { forall|i: int| 0 <= i < s.len() ==> -b <= #[trigger] s[i].v() <= b }
+
 // ---------- division ----------
 pub broadcast proof fn lemma_rdiv_mul(a: real, b: real)
     requires b != 0real
